@@ -562,3 +562,32 @@ where
         }
     }
 }
+
+/// Evaluate one replay case in a brand-new process (`vcheck <prop> --replay <file>`): process-wide state of the code
+/// under test (statics, lazily initialised tables, first-call caches) is then untouched by anything this run has
+/// evaluated before. A case that fails there is returned as a `Failure` carrying `case` as its replay.
+pub fn fresh_process(prop: &str, case: &Value) -> Check {
+    let dir = out_root().join(".tmp");
+    let _ = std::fs::create_dir_all(&dir);
+    let path = dir.join(format!("fresh-{}-{:?}-{:016x}.json", std::process::id(), std::thread::current().id(), h64(&case.to_string())));
+    std::fs::write(&path, case.to_string()).expect("scratch file");
+    let exe = std::env::current_exe().expect("own path");
+    let out = std::process::Command::new(exe).args([prop, "--replay", path.to_str().unwrap()]).env_remove("VERIF_ONLY_STRATUM").env_remove("VERIF_MAX_CASES").output();
+    let _ = std::fs::remove_file(&path);
+    let Ok(out) = out else {
+        eprintln!("INCONCLUSIVE: could not start a fresh process for one case");
+        std::process::exit(2);
+    };
+    match out.status.code() {
+        Some(0) => Ok(()),
+        Some(1) => {
+            let text = String::from_utf8_lossy(&out.stdout);
+            let grab = |key: &str| text.lines().find_map(|l| l.trim_start().strip_prefix(key).map(|s| s.trim().to_string())).unwrap_or_default();
+            Err(Failure::new(format!("{}:in-a-fresh-process", grab("signature:")), grab("detail:"), case.clone()))
+        }
+        other => {
+            eprintln!("INCONCLUSIVE: the fresh process for one case ended with {other:?}: {}", String::from_utf8_lossy(&out.stderr).chars().take(300).collect::<String>());
+            std::process::exit(2);
+        }
+    }
+}
